@@ -65,6 +65,7 @@ type c18conn struct {
 // c18Hist: histories of connect / disconnect / limit updates against a counter model.
 func c18Hist(p Params) func() {
 	depth := p.Int("depth", 5)
+	withOff := p.Get("off", "0") == "1" // the alphabet of limit updates includes 0 (no limit)
 	return func() {
 		begin()
 		limit := 1 + vsched.Choose(2, "limit")
@@ -85,7 +86,7 @@ func c18Hist(p Params) func() {
 				vsched.Quiesce()
 				c := &c18conn{raw: raw, sc: sc, sess: sess}
 				conns = append(conns, c)
-				want := liveN < limit
+				want := limit == 0 || liveN < limit // limit 0: the connection limit is switched off
 				if want {
 					if !st.OK() {
 						vsched.Failf("connection refused although only %d of %d slots are in use (leaked slot) | %s", liveN, limit, hist)
@@ -108,7 +109,11 @@ func c18Hist(p Params) func() {
 					ops = append(ops, op{fmt.Sprintf("close%d", i), func() { c.sess.Close(); c.live = false; liveN-- }})
 				}
 			}
-			for _, n := range []int{1, 2, 3} {
+			lims := []int{1, 2, 3}
+			if withOff {
+				lims = []int{0, 1, 2, 3}
+			}
+			for _, n := range lims {
 				n := n
 				if n != limit {
 					ops = append(ops, op{fmt.Sprintf("limit%d", n), func() {
